@@ -941,7 +941,7 @@ pub fn replay(payload: &Value) -> i32 {
 			_ => return 2,
 		}
 	}
-	if kind == "foreign-prefix" {
+	if kind == "foreign-prefix" || kind == "not-encrypted" {
 		// the case is a fixed element of the check's own enumeration: re-run the check
 		let code = run(&[]);
 		return if code == 0 { 0 } else { 1 };
@@ -1473,6 +1473,15 @@ pub fn run(_args: &[String]) -> i32 {
 	let mut bin_payload_positions = 0u64;
 	for &mi in bin_msgs.iter() {
 		let m = &enc[mi];
+		// a message that was asked to be encrypted but is not (mode byte 0) is a verdict, not an engine failure
+		if m.bin.len() > 2 && m.bin[2] != 1 {
+			rep.add_finding(Finding {
+				key: "C10/confidentiality/message-not-encrypted".to_owned(),
+				what: format!("slate {}: recipients were given but the message produced is not encrypted (mode byte {}): slate and sender are readable without any key", corpus[m.si].name, m.bin[2]),
+				replay: json!({"kind": "not-encrypted", "slate": corpus[m.si].name}),
+			});
+			continue;
+		}
 		let l = match layout(&m.bin) {
 			Some(l) => l,
 			None => return rep.finish(Some("cannot parse the layout of an encrypted slatepack".to_owned())),
